@@ -5,6 +5,7 @@
    (check -> request probes on whole models) — partial. *)
 From Coq Require Import QArith Qminmax List Bool Arith.
 From WSI Require Import Vqip Pow Tank Arc QTank Distrib Kinds Run TankLaws ArcLaws QueueLaws DistribLaws KindLaws.
+From WSI Require Net NetLaws.
 Import ListNotations.
 Open Scope Q_scope.
 
@@ -40,3 +41,10 @@ Theorem C07_river_pull_check_is_honest : forall S P (K : contract S P) maxiter k
   (allowance S k <= vol (stock S k) -> allowance S k <= vol (stock S k')).
 Proof. exact river_alone_honest_and_safe. Qed.
 Print Assumptions C07_river_pull_check_is_honest.
+
+(* ---- whole networks (coq/Net.v, NetLaws.v): a check changes nothing ----
+   however deep it recurses through junctions, rivers and arcs *)
+Theorem C07_network_checks_are_pure : forall maxiter fuel s r s' rep, NetLaws.wf s -> NetLaws.is_check r = true ->
+  Net.exec maxiter fuel s r = Some (s', rep) -> s' = s.
+Proof. exact NetLaws.checks_pure. Qed.
+Print Assumptions C07_network_checks_are_pure.
